@@ -161,6 +161,20 @@ def regen_limits():
     return True, msgs
 
 
+def regen_wire():
+    """T-G: layout of the stream image (the four stream operators) from the source text"""
+    gen = os.path.join(CACHE, "gen")
+    os.makedirs(gen, exist_ok=True)
+    tmp = os.path.join(gen, "Wire.lean")
+    rc, out, _ = sh([sys.executable, os.path.join(VERIF, "translate", "wire.py"), REPO, tmp])
+    if rc != 0:
+        return False, ["T-G: " + out.strip()[-1200:]]
+    msgs = []
+    if write_if_changed(os.path.join(LEAN, "Cuckoo", "Gen", "Wire.lean"), open(tmp).read()):
+        msgs.append("T-G: Gen/Wire.lean changed")
+    return True, msgs
+
+
 def both(*fns):
     def f():
         ok, msgs = True, []
